@@ -130,6 +130,17 @@ def chord(n, r):
 
 
 def eval_scene(fam, s):
+    if s[0] == 'after':
+        # first build the same shape along another direction (the result is discarded), then the real scene
+        first = s[1]
+        lib.call(lambda: {'Circle': lambda: Circle(Point(*first[1]), Vector(*first[3]), first[2], first[4]),
+                          'Cylinder': lambda: Cylinder(Point(*first[1]), first[2], Vector(*first[3]), first[4]),
+                          'Cone': lambda: Cone(Point(*first[1]), first[2], Vector(*first[3]), first[4])}[first[0]]())
+        cell, viols = eval_scene(fam, s[2])
+        for v in viols:
+            v.scene = core.enc(s)
+            v.sig = v.sig.replace('C14|', 'C14|after-another-direction|', 1)
+        return 'after|' + cell, viols
     kind = s[0]
     viols = []
     cell = kind
@@ -354,6 +365,14 @@ def families(tier):
     scaled += [('Circle', CENTRES[0], 2.0, (1.0, 12.0, 0.0), 6), ('Cylinder', CENTRES[0], 2.0, (1.0, 12.0, 0.0), 6), ('Circle', CENTRES[0], 2.0, (-1.0, 0.0, 30.0), 5),
                ('Cone', CENTRES[0], 2.0, (0.999, 9.0, -9.0), 7)]
     fams.append(ListFamily('scaled-axis', scaled, chunk=25))
+    # a direction that differs from an axis (or lattice) direction only in the third decimal, built right after that direction
+    seq = []
+    for kind in ('Circle', 'Cylinder', 'Cone'):
+        for d in [fl3(x) for x in A.D1]:
+            for eps_d in ((0.003, 0.002, -0.001), (-0.002, 0.004, 0.003)):
+                d2 = tuple(a + b for a, b in zip(d, eps_d))
+                seq.append(('after', (kind, CENTRES[0], 1.5, d, 5), (kind, CENTRES[1], 2.5, d2, 6)))
+    fams.append(ListFamily('sequence', seq, chunk=20))
     fams.append(ListFamily('Sphere', [('Sphere',) + x for x in sph], chunk=4))
     pg = [('Parallelogram', b, X.scal(k, v1), v2) for b in ((0, 0, 0), (1, -2, F(1, 2))) for k in (1, 2, F(1, 2))
           for v1 in vecs for v2 in vecs if not X.is_zero(X.cross(v1, v2))]
@@ -361,6 +380,13 @@ def families(tier):
     trip = [(v1, v2, v3) for v1 in vecs for v2 in vecs for v3 in vecs if X.det3(v1, v2, v3) != 0]
     pp = [('Parallelepiped', (1, -2, F(1, 2)), v1, v2, v3) for (v1, v2, v3) in trip[::pe_step]]
     pp += [('Parallelepiped', (0, 0, 0), X.scal(2, v1), v2, X.scal(F(1, 2), v3)) for (v1, v2, v3) in trip[::pe_step * 5]]
+    units = ((1, 0, 0), (0, 1, 0), (0, 0, 1))
+    for b in product((-2, -1, 0), repeat=3):
+        pp.append(('Parallelepiped', b, units[0], units[1], units[2]))
+        pp.append(('Parallelepiped', b, units[1], units[2], units[0]))
+        pg.append(('Parallelogram', b, units[0], units[1]))
+        pg.append(('Parallelogram', b, units[1], units[2]))
+    fams[-4 if False else [i for i, f in enumerate(fams) if f.name == 'Parallelogram'][0]] = ListFamily('Parallelogram', pg, chunk=200)
     fams.append(ListFamily('Parallelepiped', pp, chunk=40))
     return fams
 
